@@ -93,24 +93,10 @@ def handler_wiring(ctx, r1, pr, f, bb):
         r1.fail("C01.R1:unknown-asset", swap.path, swap.span, "an offer asset that is neither pool asset is not rejected (it would be priced as one of them)")
     else:
         r1.site("offer asset matching neither pool => Err")
-    # args by definition site
-    want = {0: ("offer reserve", lambda k: r"^C:cosmwasm_std::Uint128::checked_sub@"), 1: ("ask reserve", None)}
+    # arguments evaluated along each selection branch
     for ai, a in enumerate(t["args"][:2]):
-        if a["k"] not in ("copy", "move"):
-            r1.fail("C01.R1:arg%d" % ai, swap.path, common.span_of_block_term(swap, bb), "pricing argument %d is not a place" % ai)
-            continue
-        alts = P.alts_with_sites(swap, (bb, n), a["place"])
-        seen = set()
-        for site, v in alts:
-            if site == "entry":
-                r1.fail("C01.R1:arg%d:origin" % ai, swap.path, common.span_of_block_term(swap, bb), "pricing argument %d does not originate from the queried reserves" % ai)
-                continue
-            ks = [k for k, reg in regions.items() if site[0] in reg]
-            if len(ks) != 1:
-                r1.fail("C01.R1:arg%d:region" % ai, swap.path, common.span_of_block_term(swap, site[0]), "a value for pricing argument %d is defined outside the two selection branches" % ai)
-                continue
-            k = ks[0]
-            seen.add(k)
+        for k in (0, 1):
+            v = P.val_operand_in(swap, (bb, n), a, regions[k])
             rs = set(ctx.roots(v))
             if ai == 0:
                 subs = [x for x in common.walk(v) if x[0] == "call" and isinstance(x[3], str) and generic_path(x[3]).endswith("Uint128::checked_sub")]
@@ -120,17 +106,15 @@ def handler_wiring(ctx, r1, pr, f, bb):
                     pg = common.propagated(P, swap, subs[0][2])
                     ok = pg is not None and common.fail_edge_only_errors(P, swap, pg[2])[0]
                 if not ok:
-                    r1.fail("C01.R1:offer-reserve:%d" % k, swap.path, common.span_of_block_term(swap, site[0]),
+                    r1.fail("C01.R1:offer-reserve:%d" % k, swap.path, common.span_of_block_term(swap, bb),
                             "branch `offer is pools[%d]`: offer reserve ⊢ %s, expected pools[%d].amount - offer.amount by aborting subtraction (the offer is already in the balance)" % (k, sorted(rs), k))
                 else:
                     r1.site("offer == pools[%d]: offer reserve = pools[%d].amount - offer.amount (aborting)" % (k, k))
             else:
                 if rs != {"%s[%d].amount" % (QP, 1 - k)}:
-                    r1.fail("C01.R1:ask-reserve:%d" % k, swap.path, common.span_of_block_term(swap, site[0]), "branch `offer is pools[%d]`: ask reserve ⊢ %s, expected pools[%d].amount" % (k, sorted(rs), 1 - k))
+                    r1.fail("C01.R1:ask-reserve:%d" % k, swap.path, common.span_of_block_term(swap, bb), "branch `offer is pools[%d]`: ask reserve ⊢ %s, expected pools[%d].amount" % (k, sorted(rs), 1 - k))
                 else:
                     r1.site("offer == pools[%d]: ask reserve = pools[%d].amount" % (k, 1 - k))
-        if seen != {0, 1}:
-            r1.fail("C01.R1:arg%d:coverage" % ai, swap.path, common.span_of_block_term(swap, bb), "pricing argument %d is defined in branches %s only" % (ai, sorted(seen)))
     cv = P.val_call(swap, body, bb)
     if set(ctx.roots(cv[4][2])) != {P_(swap, offer_i, ".amount")}:
         r1.fail("C01.R1:offer-amount", swap.path, common.span_of_block_term(swap, bb), "priced offer amount ⊢ %s, expected the named offer amount" % sorted(ctx.roots(cv[4][2])))
@@ -146,28 +130,20 @@ def handler_wiring(ctx, r1, pr, f, bb):
     for cb in pr.calls_to(swap, tc):
         tt = body.blocks[cb]["term"]
         nn = len(body.blocks[cb]["stmts"])
-        a0 = tt["args"][0]
-        if a0["k"] in ("copy", "move"):
-            cvp = P.val_call(swap, body, cb)
-            info_v = cvp[4][0]
-            # evaluate per branch through the ask-pool local
-            asset_alts = P.alts_with_sites(swap, (cb, nn), a0["place"])
-            for site, v in asset_alts:
-                inf = set(ctx.roots(v, (("f", "info"),)))
-                if inf != {"%s[0].info" % QP, "%s[1].info" % QP} and not all(re.match(r"^%s\[[01]\]\.info$" % re.escape(QP), x) for x in inf):
-                    r1.fail("C01.R1:payout-asset", swap.path, common.span_of_block_term(swap, cb), "payout asset ⊢ %s" % sorted(inf))
-    # ask info per branch: the local cloned into the payout
-    # (index consistency of the payout asset is checked through the ask-pool definitions)
-    ask_defs = {}
-    for l, nm in body.names.items():
-        pass
+        for k in (0, 1):
+            v = P.val_operand_in(swap, (cb, nn), tt["args"][0], regions[k])
+            inf = set(ctx.roots(v, (("f", "info"),)))
+            if inf != {"%s[%d].info" % (QP, 1 - k)}:
+                r1.fail("C01.R1:payout-asset:%d" % k, swap.path, common.span_of_block_term(swap, cb), "branch `offer is pools[%d]`: payout asset ⊢ %s, expected pools[%d].info" % (k, sorted(inf), 1 - k))
+            else:
+                r1.site("offer == pools[%d]: payout asset = pools[%d].info" % (k, 1 - k))
 
 
 def run(ctx):
     n1 = ctx.inst("C01.N1", "pricing: net output never exceeds ask*offer/(offer_reserve+offer) (all inputs, all rates) — E-ROUND", floor=1)
     n2 = ctx.inst("C01.N2", "pricing: net = gross - floor(rate*gross) by aborting subtraction", floor=2)
     n3 = ctx.inst("C01.N3", "the commission is not paid out: the only payout of the swap handler carries the net output (shared with C02.R6)", floor=3)
-    r1 = ctx.inst("C01.R1", "handler prices on (balance_offer - offer, balance_ask, offer, stored rate) with offer/ask selected by equality against the named asset", floor=7)
+    r1 = ctx.inst("C01.R1", "handler prices on (balance_offer - offer, balance_ask, offer, stored rate) with offer/ask selected by equality against the named asset", floor=9)
     r2 = ctx.inst("C01.R2", "the named offer asset is bound to what was delivered (shared with C02.R1-R5)", floor=6)
     res = pricing_obligations(ctx, n1, n2)
     import_instances(ctx, n3, c02, {"C02.R6"}, "C01.N3")
